@@ -182,10 +182,12 @@ struct Cfg {
     ylen: Option<usize>,
     qshape: Vec<usize>,
     qrank: QRank,
+    /// long axes: only x[pos..pos+3] are unconstrained IEEE values, the rest is a concrete increasing background
+    window: Option<usize>,
 }
 impl Cfg {
     fn name(&self) -> String {
-        format!("{} custom strategy MIN={} data{:?}{} x={:?} y={:?} query{:?}/{:?}", if self.two_d { "Interp2D" } else { "Interp1D" }, self.min, self.shape, if self.dynamic { "(IxDyn)" } else { "" }, self.xlen, self.ylen, self.qshape, self.qrank)
+        format!("{} custom strategy MIN={} data{:?}{} x={:?} y={:?} query{:?}/{:?}{}", if self.two_d { "Interp2D" } else { "Interp1D" }, self.min, self.shape, if self.dynamic { "(IxDyn)" } else { "" }, self.xlen, self.ylen, self.qshape, self.qrank, self.window.map(|p| format!(" symbolic window x[{p}..{}]", p + 3)).unwrap_or_default())
     }
 }
 
@@ -197,6 +199,8 @@ struct Run {
     eps: Vec<(String, Result<Vec<Sym>, String>, Vec<(Sym, Sym, Vec<usize>)>)>,
     accessors: Vec<(String, bool)>,
     in_range: Option<(bool, Sym)>,
+    /// 2-D: is_in_y_range of the same probe
+    in_range_y: Option<bool>,
 }
 
 fn check_config(cfg: &Cfg) -> Report {
@@ -206,7 +210,14 @@ fn check_config(cfg: &Cfg) -> Report {
     chk.begin_config(&cfg.name());
     let axes = if cfg.two_d { 2 } else { 1 };
     let total: usize = cfg.shape.iter().product();
-    let x: Option<Vec<Sym>> = cfg.xlen.map(|l| (0..l).map(|i| Sym::var(&format!("x{i}"))).collect());
+    let x: Option<Vec<Sym>> = cfg.xlen.map(|l| {
+        (0..l)
+            .map(|i| match cfg.window {
+                Some(p) if i < p || i >= p + 3 => Sym::int(3 * i as i128 - 7),
+                _ => Sym::var(&format!("x{i}")),
+            })
+            .collect()
+    });
     let y: Option<Vec<Sym>> = cfg.ylen.map(|l| (0..l).map(|i| Sym::var(&format!("y{i}"))).collect());
     let data: Vec<Sym> = (0..total).map(|i| Sym::var(&format!("d{i}"))).collect();
     let nq: usize = cfg.qshape.iter().product();
@@ -230,7 +241,7 @@ fn check_config(cfg: &Cfg) -> Report {
                     BuilderError::ShapeError(m) => ("ShapeError", m.clone()),
                     BuilderError::ValueError(m) => ("ValueError", m.clone()),
                 };
-                return Run { built: Err((k.to_string(), m)), log_build, eps: vec![], accessors: vec![], in_range: None };
+                return Run { built: Err((k.to_string(), m)), log_build, eps: vec![], accessors: vec![], in_range: None, in_range_y: None };
             }
         };
         let mut eps = vec![];
@@ -308,9 +319,13 @@ fn check_config(cfg: &Cfg) -> Report {
         }
         let in_range = match &it {
             Built::D1(i) => Some((i.is_in_range(qprobe), qprobe)),
-            Built::D2(i) => Some((i.is_in_x_range(qprobe) && i.is_in_y_range(qprobe), qprobe)),
+            Built::D2(i) => Some((i.is_in_x_range(qprobe), qprobe)),
         };
-        Run { built: Ok(()), log_build, eps, accessors, in_range }
+        let in_range_y = match &it {
+            Built::D1(_) => None,
+            Built::D2(i) => Some(i.is_in_y_range(qprobe)),
+        };
+        Run { built: Ok(()), log_build, eps, accessors, in_range, in_range_y }
     });
     chk.add_explore_stats(paths.len(), &st);
     let all_vars: Vec<String> = with_ctx(|c| c.var_names.clone());
@@ -429,16 +444,21 @@ fn check_config(cfg: &Cfg) -> Report {
                 chk.finding(&format!("C18:index_point:{kind}"), &format!("{}: {name} does not return axis[i], data[i]", cfg.name()), Json::obj().with("config", cfg.name()), Some(true));
             }
         }
-        // ---- is_in_range is the closed-range test (IEEE), decided per path
-        if let (Some((r, q)), false) = (&run.in_range, cfg.two_d) {
+        // ---- is_in_range / is_in_x_range / is_in_y_range are the closed-range tests (IEEE: false for NaN), decided per path
+        if let Some((r, q)) = &run.in_range {
             let idx = |n: usize| (0..n).map(|i| Sym::int(i as i128)).collect::<Vec<_>>();
-            let xa = x.clone().unwrap_or(idx(cfg.shape[0]));
-            let spec = format!("(and (fp.leq {} {q}) (fp.leq {q} {}))", chk.term(xa[0]), chk.term(xa[xa.len() - 1]), q = chk.term(*q));
-            let mut a = chk.pc(&p.pc);
-            a.push(if *r { format!("(not {spec})") } else { spec });
-            if let Verdict::Cex(vals) = chk.must_unsat("is_in_range", &format!("path {pi}: is_in_range = closed range test"), &a, &all_vars) {
-                let m = crate::c05::model_f64(&vals);
-                chk.finding("C18:is_in_range", &format!("{}: is_in_range returned {r} contradicting x0 <= q <= xn", cfg.name()), Json::obj().with("config", cfg.name()).with("model", crate::c05::model_json(&m)), None);
+            let mut tests = vec![(if cfg.two_d { "is_in_x_range" } else { "is_in_range" }, *r, x.clone().unwrap_or(idx(cfg.shape[0])))];
+            if let Some(ry) = run.in_range_y {
+                tests.push(("is_in_y_range", ry, y.clone().unwrap_or(idx(cfg.shape[1]))));
+            }
+            for (what, r, ax) in tests {
+                let spec = format!("(and (fp.leq {} {q}) (fp.leq {q} {}))", chk.term(ax[0]), chk.term(ax[ax.len() - 1]), q = chk.term(*q));
+                let mut a = chk.pc(&p.pc);
+                a.push(if r { format!("(not {spec})") } else { spec });
+                if let Verdict::Cex(vals) = chk.must_unsat("is_in_range", &format!("path {pi}: {what} = closed range test"), &a, &all_vars) {
+                    let m = crate::c05::model_f64(&vals);
+                    chk.finding(&format!("C18:{what}"), &format!("{}: {what} returned {r} contradicting first <= q <= last (q = {:?})", cfg.name(), m.get("qprobe")), Json::obj().with("config", cfg.name()).with("model", crate::c05::model_json(&m)), None);
+                }
             }
         }
     }
@@ -478,9 +498,19 @@ fn configs(args: &Args) -> Vec<Cfg> {
                         if xlen == Some(len + 1) && qi != 0 {
                             continue;
                         }
-                        v.push(Cfg { two_d: false, min, shape: shape.clone(), dynamic: (qi + ti) % 3 == 2, xlen, ylen: None, qshape: qs.clone(), qrank: *qr });
+                        v.push(Cfg { two_d: false, min, shape: shape.clone(), dynamic: (qi + ti) % 3 == 2, xlen, ylen: None, qshape: qs.clone(), qrank: *qr, window: None });
                     }
                 }
+            }
+        }
+    }
+    // long axes: a window of three unconstrained elements at every position of a concrete increasing axis (a block-wise
+    // validation scan only goes wrong beyond a block)
+    for n in if deep { vec![9usize, 17, 18, 33] } else { vec![9usize, 17] } {
+        for pos in 0..n - 2 {
+            v.push(Cfg { two_d: false, min: 2, shape: vec![n], dynamic: pos % 2 == 1, xlen: Some(n), ylen: None, qshape: vec![2], qrank: QRank::Static, window: Some(pos) });
+            if n == 9 {
+                v.push(Cfg { two_d: true, min: 2, shape: vec![n, 2], dynamic: false, xlen: Some(n), ylen: None, qshape: vec![1], qrank: QRank::Static, window: Some(pos) });
             }
         }
     }
@@ -494,9 +524,9 @@ fn configs(args: &Args) -> Vec<Cfg> {
                     if !thorough && qi >= 2 && !trailing.is_empty() {
                         continue;
                     }
-                    v.push(Cfg { two_d: true, min, shape: shape.clone(), dynamic: qi == 3, xlen: Some(nx), ylen: if qi % 2 == 0 { Some(ny) } else { None }, qshape: qs.clone(), qrank: *qr });
+                    v.push(Cfg { two_d: true, min, shape: shape.clone(), dynamic: qi == 3, xlen: Some(nx), ylen: if qi % 2 == 0 { Some(ny) } else { None }, qshape: qs.clone(), qrank: *qr, window: None });
                 }
-                v.push(Cfg { two_d: true, min, shape: shape.clone(), dynamic: false, xlen: Some(nx), ylen: Some(ny + 1), qshape: vec![1], qrank: QRank::Static });
+                v.push(Cfg { two_d: true, min, shape: shape.clone(), dynamic: false, xlen: Some(nx), ylen: Some(ny + 1), qshape: vec![1], qrank: QRank::Static, window: None });
             }
         }
     }
